@@ -290,6 +290,40 @@ func inputBytes(c *Cell) []byte {
 	return b.Bytes()
 }
 
+// NewProc, as a command line, ends the current driver process: the commands after it run in a fresh one
+// (process-wide state of the emitted code and of the runtime - static initialisers, registries - starts over).
+const NewProc = "NEWPROC"
+
+// segmentLines splits the commands of a cell at NewProc lines.
+func segmentLines(in []string) [][]string {
+	segs := [][]string{nil}
+	for _, l := range in {
+		if l == NewProc {
+			segs = append(segs, nil)
+			continue
+		}
+		segs[len(segs)-1] = append(segs[len(segs)-1], l)
+	}
+	return segs
+}
+
+// runSegments runs one driver process per segment and concatenates what they printed; it stops at the first
+// process that fails and returns what was printed up to then together with the failure.
+func runSegments(c *Cell, run func(stdin []byte) (so, se []byte, err error)) (so, se []byte, err error) {
+	for _, seg := range segmentLines(c.Input) {
+		o, e2, err := run(inputBytes(&Cell{Input: seg}))
+		so = append(so, o...)
+		if len(so) > 0 && so[len(so)-1] != '\n' {
+			so = append(so, '\n')
+		}
+		se = append(se, e2...)
+		if err != nil {
+			return so, se, err
+		}
+	}
+	return so, se, nil
+}
+
 func parallel(n int, f func(i int)) {
 	workers := 16
 	if n < workers {
